@@ -302,12 +302,30 @@ func runC19(cfg *config, res *monitor.Result) {
 		}
 		// declared length beyond the buffer: rejected without invoking the nested decoder
 		if len(B) > 0 {
-			trunc := buf[:before+len(want)-1]
-			d3 := csproto.NewDecoder(trunc)
-			_, _ = d3.Seek(int64(before+refwire.SizeKey(tag)), 0)
-			probe := &stubTo{}
-			if err := d3.DecodeNested(probe); err == nil || probe.calls != 0 {
-				viol("decode-overlong-length", fmt.Sprintf("declared length beyond the buffer: err=%v, nested decoder invoked %d times", err, probe.calls))
+			// in both decoder modes, and both with the rest of the (larger) buffer as spare capacity behind the slice
+			// and with no capacity beyond its length
+			for _, fast := range []bool{false, true} {
+				for _, tight := range []bool{false, true} {
+					trunc := buf[:before+len(want)-1]
+					if tight {
+						trunc = append([]byte(nil), trunc...)
+						trunc = trunc[:len(trunc):len(trunc)]
+					}
+					d3 := csproto.NewDecoder(trunc)
+					if fast {
+						d3.SetMode(csproto.DecoderModeFast)
+					}
+					_, _ = d3.Seek(int64(before+refwire.SizeKey(tag)), 0)
+					probe := &stubTo{}
+					var err error
+					if pi := monitor.Try(func() { err = d3.DecodeNested(probe) }); pi != nil {
+						viol("decode-overlong-length-panic", fmt.Sprintf("DecodeNested panicked on a declared length beyond the buffer (fast=%v, spare capacity=%v): %s", fast, !tight, pi.Value))
+					} else if err == nil || probe.calls != 0 {
+						viol("decode-overlong-length", fmt.Sprintf("declared length beyond the buffer (fast=%v, spare capacity=%v): err=%v, nested decoder invoked %d times", fast, !tight, err, probe.calls))
+					} else if off := d3.Offset(); off > len(trunc) {
+						viol("decode-overlong-length-cursor", fmt.Sprintf("cursor %d beyond the %d-byte input after the refused field", off, len(trunc)))
+					}
+				}
 			}
 		}
 		classes[nc.kind+"/"+position+"/"+lenBucket(len(B))]++
